@@ -538,8 +538,10 @@ static void build_sections(bool T) {
     auto m = std::make_shared<ProdMenus>(prod_menus(T));
     auto addu = [](std::vector<std::string>& v, const std::string& s) { if (std::find(v.begin(), v.end(), s) == v.end()) v.push_back(s); };
     for (int n : {1, 15, 16, 17, 31, 32, 33, 48}) { addu(m->slots[4], std::string(size_t(n), 'h')); addu(m->slots[6], "/" + std::string(size_t(n - 1), 'p')); }
-    if (T) {  // tuned to the time budget: the thorough pad and fragment menus are cut to 2 and 4 entries (5 builds x product)
+    if (T) {  // tuned to the time budget (5 builds x product): thorough pad, userinfo, port, fragment menus cut to 2, 5, 6, 4 entries
       m->slots[0].resize(2);
+      if (m->slots[3].size() > 5) m->slots[3].resize(5);
+      if (m->slots[5].size() > 6) m->slots[5].resize(6);
       m->slots[8] = {"", "#", "#f` \"<>", "##"};
     }
     std::vector<uint64_t> radix; for (auto& s : m->slots) radix.push_back(s.size());
@@ -580,29 +582,38 @@ static std::string args_show(const Case& c) {
   }
   return s + ")";
 }
-// Refinement of the class for the ipv4 family, computed from the enumerated host string alone (never from a result):
-// nd<number of dots>[t = ends with a dot]:<wf | malformed | nondec>, where wf = after dropping one trailing dot every
-// dot-separated segment is 1..3 decimal digits. Keeps a known divergence of one input shape from hiding another shape.
-static std::string ipv4_shape(const std::string& payload) {
-  // the host the parser sees: tabs/newlines removed, leading slashes skipped, cut at the first delimiter
+// Refinement of the class by the *shape of the host in the input* (computed from the input alone, never from a result):
+// when the host the parser will see consists of decimal digits and dots only, the class gets the suffix
+// nd<number of dots>[t = ends with a dot]:<wf | malformed>, where wf = after dropping one trailing dot every dot-separated
+// label is 1..3 digits. This keeps a known divergence on one input shape from hiding a divergence on another shape.
+static std::string dotted_shape(std::string_view raw) {
   std::string p;
-  for (size_t i = 0; i < payload.size(); i++) {
-    char ch = payload[i];
+  for (size_t i = 0; i < raw.size(); i++) {
+    char ch = raw[i];
     if (ch == '\t' || ch == '\n' || ch == '\r') continue;
     // the two UTS46 mappings present in the enumeration: fullwidth digits -> digit, ideographic full stop -> '.'
-    if (i + 2 < payload.size() && ch == '\xef' && payload[i + 1] == '\xbc' && (unsigned char)payload[i + 2] >= 0x90 && (unsigned char)payload[i + 2] <= 0x99) { p.push_back(char('0' + ((unsigned char)payload[i + 2] - 0x90))); i += 2; continue; }
-    if (i + 2 < payload.size() && ch == '\xe3' && payload[i + 1] == '\x80' && payload[i + 2] == '\x82') { p.push_back('.'); i += 2; continue; }
+    if (i + 2 < raw.size() && ch == '\xef' && raw[i + 1] == '\xbc' && (unsigned char)raw[i + 2] >= 0x90 && (unsigned char)raw[i + 2] <= 0x99) { p.push_back(char('0' + ((unsigned char)raw[i + 2] - 0x90))); i += 2; continue; }
+    if (i + 2 < raw.size() && ch == '\xe3' && raw[i + 1] == '\x80' && raw[i + 2] == '\x82') { p.push_back('.'); i += 2; continue; }
     p.push_back(ch);
   }
-  size_t st = 0; while (st < p.size() && (p[st] == '/' || p[st] == '\\')) st++;
+  size_t st = 0; while (st < p.size() && (unsigned char)p[st] <= 0x20) st++;   // leading C0 control or space
   p = p.substr(st);
-  size_t cut = p.find_first_of("/\\?#:");
+  // scheme
+  size_t k = 0;
+  while (k < p.size() && (isalnum((unsigned char)p[k]) || p[k] == '+' || p[k] == '-' || p[k] == '.')) k++;
+  if (k > 0 && k < p.size() && p[k] == ':' && isalpha((unsigned char)p[0])) p = p.substr(k + 1);
+  st = 0; while (st < p.size() && (p[st] == '/' || p[st] == '\\')) st++;
+  p = p.substr(st);
+  size_t cut = p.find_first_of("/\\?#");
   if (cut != std::string::npos) p = p.substr(0, cut);
   size_t at = p.rfind('@');
   if (at != std::string::npos) p = p.substr(at + 1);   // userinfo
-  for (char ch : p) if (!((ch >= '0' && ch <= '9') || ch == '.')) return "nondec";
+  cut = p.find(':');
+  if (cut != std::string::npos) p = p.substr(0, cut);  // port
+  if (p.empty()) return "";
+  for (char ch : p) if (!((ch >= '0' && ch <= '9') || ch == '.')) return "";
   int nd = 0; for (char ch : p) nd += ch == '.';
-  bool trailing = !p.empty() && p.back() == '.';
+  bool trailing = p.back() == '.';
   std::string q = trailing ? p.substr(0, p.size() - 1) : p;
   bool wf = !q.empty();
   size_t run = 0;
@@ -610,6 +621,17 @@ static std::string ipv4_shape(const std::string& payload) {
     if (i == q.size() || q[i] == '.') { if (run == 0 || run > 3) wf = false; run = 0; } else run++;
   }
   return "nd" + std::to_string(nd) + (trailing ? "t" : "") + (wf ? ":wf" : ":malformed");
+}
+static std::string host_shape(const Case& c) {
+  if (c.kind == 'P') return dotted_shape(c.a[0]);
+  if (c.kind == 'H') {
+    for (size_t i = c.a.size(); i >= 3; i -= 2) {   // last host-setting operation of the history
+      uint8_t op = uint8_t(atoi(c.a[i - 2].c_str()));
+      if (op == SET_HOST || op == SET_HOSTNAME) return dotted_shape(c.a[i - 1]);
+      if (op == SET_HREF) return dotted_shape(c.a[i - 1]);
+    }
+  }
+  return "";
 }
 static size_t case_size(const Case& c) { size_t n = 0; for (auto& x : c.a) n += x.size() + 1; return n; }
 static JObj witness_base(const Case& c, const std::string& section, uint64_t ordinal, const std::string& tier) {
@@ -620,7 +642,7 @@ static JObj witness_base(const Case& c, const std::string& section, uint64_t ord
 }
 
 // ------------------------------------------------------------------------------------------------ worker / supervisor
-static const size_t DT = 1u << 21;  // distinct-outcome table (open addressing), reference build only
+static const size_t DT = 1u << 18;  // distinct-outcome table (open addressing), reference build only
 struct Shared {
   volatile uint64_t cur;
   volatile int sig;
@@ -979,7 +1001,8 @@ int main(int argc, char** argv) {
       std::string family = sec.name.substr(0, sec.name.find('-'));
       std::string cls = "C18/diff/" + refcfg + "-vs-" + config + "/" + family + "/" + lanes;
       Case c; get_case(g, c);
-      if (family == "ipv4") cls += "/" + ipv4_shape(c.payload);
+      std::string shape = host_shape(c);
+      if (!shape.empty()) cls += "/" + shape;
       per_section[sec.name]++;
       auto it = R.by_class.find(cls);
       size_t csz = case_size(c);
